@@ -46,7 +46,7 @@ def one(sh, ops, tie, tie_seed, kind, decimal=False):
 
 def run(sh):
     L = 5 if sh.tier == 'quick' else 6
-    nrand = 2400 if sh.tier == 'quick' else 60000
+    nrand = 2400 if sh.tier == 'quick' else 300000
     k = 0
     for length in range(1, L + 1):
         for seq in itertools.product(range(len(ALPHABET)), repeat=length):
@@ -71,7 +71,7 @@ def line_leg(sh):
     except ImportError:
         return
     engine_line.run_profile(sh, 'C01', profile='general',
-                            n_models=200 if sh.tier == 'quick' else 4000,
+                            n_models=200 if sh.tier == 'quick' else 20000,
                             monitors=('queue',), prefix='line_')
 
 
